@@ -72,8 +72,14 @@ Calls == [c : {"SetCT"}, ct : CTs] \cup [c : {"WH"}, s : Statuses]
 (*   200: application/json, schema {type: object, required [id], id: integer}*)
 (*   201: description only (no content)                                      *)
 (*   anything else: undeclared => accepted (IncludeResponseStatus is off)    *)
-RespValid(status, ct, body) ==
-   IF status = 200 THEN ct = "json" /\ body = ValidJson ELSE TRUE
+(* opt: the ValidationOptions the validator was built with, as far as they change the verdict  *)
+(*   "none" | "include_status" (IncludeResponseStatus: undeclared statuses are invalid)          *)
+(*          | "exclude_body"   (ExcludeResponseBody: content type and body are not checked)      *)
+RespValidOpt(opt, status, ct, body) ==
+   IF status = 200 THEN opt = "exclude_body" \/ (ct = "json" /\ body = ValidJson)
+   ELSE IF status = 201 THEN TRUE
+   ELSE opt # "include_status"
+RespValid(status, ct, body) == RespValidOpt("none", status, ct, body)
 
 -----------------------------------------------------------------------------
 (* ClientModel: what the peer of a net/http ResponseWriter observes, from the raw calls *)
@@ -149,7 +155,7 @@ FailedV(cfg, scr, obs) ==
        d    == Direct(scr, cfg.strict)
        \* strict mode defers the commit to the flush, so the Content-Type that goes out (and
        \* that the response check must use) is the one in the header map at handler return
-       ok   == RespValid(d.status, DirectRaw(scr, "none", FALSE).hdr, d.body)
+       ok   == RespValidOpt(cfg.opt, d.status, DirectRaw(scr, "none", FALSE).hdr, d.body)
    IN
    (IF obs.eff.panicked THEN {"no_panic"} ELSE {})
    \cup (IF obs.invoked # (IF gate = 0 THEN 1 ELSE 0) THEN {"handler_iff_valid"} ELSE {})
@@ -188,8 +194,10 @@ vars == <<cfg, phase, w, hdr, script, cOut, invoked, errs, logs>>
 WInit == [hw |-> FALSE, st |-> 0, buf |-> <<>>]
 
 Init ==
-   /\ cfg \in [strict : BOOLEAN, reqClass : ReqClasses, errMode : ErrModes, gate : {"validator", "vhandler"}]
-   /\ (cfg.gate = "vhandler" => ~cfg.strict /\ cfg.errMode = "default")
+   /\ cfg \in [strict : BOOLEAN, reqClass : ReqClasses, errMode : ErrModes, gate : {"validator", "vhandler"},
+                opt : {"none", "include_status", "exclude_body"}]
+   /\ (cfg.gate = "vhandler" => ~cfg.strict /\ cfg.errMode = "default" /\ cfg.opt = "none")
+   /\ (cfg.opt # "none" => cfg.strict /\ cfg.errMode = "custom" /\ cfg.reqClass = "valid_post")   \* options matter for the strict verdict
    /\ phase = "start" /\ w = WInit /\ hdr = "none" /\ script = <<>> /\ cOut = <<>>
    /\ invoked = 0 /\ errs = <<>> /\ logs = <<>>
 
@@ -266,7 +274,7 @@ WStatus(ws) == IF ws.st = 0 /\ ZeroStatusFix /\ cfg.strict THEN 200 ELSE ws.st
 
 RespCheckFrom(ph) ==
    /\ phase = ph /\ phase' = "done"
-   /\ LET ok == cfg.gate = "vhandler" \/ RespValid(WStatus(w), hdr, Str(w.buf)) IN
+   /\ LET ok == cfg.gate = "vhandler" \/ RespValidOpt(cfg.opt, WStatus(w), hdr, Str(w.buf)) IN
       IF ok THEN
          /\ cOut' = IF cfg.strict
                     THEN cOut \o <<[e |-> "WH", s |-> WStatus(w), ct |-> hdr],
